@@ -98,7 +98,17 @@ fn fixed_tx(ctx: &mut Ctx, tape: &[u8]) -> CaseResult {
     let (plan, content) = split_plan(tape, 40);
     let mut g = Gen::new(content, 3, 5);
     g.cddl_ranges = true;
-    let tx = transaction(&mut g);
+    let mut tx = transaction(&mut g);
+    // auxiliary data is the last thing the transaction generator asks the content tape for and starves there:
+    // the plan's last byte attaches one (content from a derived tape) to a quarter of the transactions without
+    if tx.auxiliary_data().is_none() && plan.len() == 40 && plan[39] & 3 == 1 {
+        let aux_tape = expand(&plan[32..40], 300);
+        let mut ga = Gen::new(&aux_tape, 3, 4);
+        ga.cddl_ranges = true;
+        let valid = tx.is_valid();
+        tx = Transaction::new(&tx.body(), &tx.witness_set(), Some(auxiliary_data(&mut ga)));
+        tx.set_is_valid(valid);
+    }
     let canonical = tx.to_bytes();
     let mut t = Tape::new(plan);
     let coins = expand(&plan[..plan.len().min(8)], 4096);
@@ -171,6 +181,7 @@ fn fixed_tx(ctx: &mut Ctx, tape: &[u8]) -> CaseResult {
             return Ok(());
         }
     };
+    let route = t.choose(4);
     let mut ftx = match lib("FixedTransaction::from_bytes", || FixedTransaction::from_bytes(input.clone()))? {
         Ok(f) => f,
         Err(_) => {
@@ -184,6 +195,38 @@ fn fixed_tx(ctx: &mut Ctx, tape: &[u8]) -> CaseResult {
     };
     let mut body_slice: Vec<u8> = input[lay.body.0..lay.body.1].to_vec();
     let aux_slice: Option<Vec<u8>> = lay.aux.map(|(a, b)| input[a..b].to_vec());
+    // the other ways to get the same object: from its raw parts (with / without auxiliary data) and from hex
+    {
+        let items = doc.as_array().unwrap();
+        let wits_slice = input[items[1].start..items[1].end].to_vec();
+        let is_valid = if items.len() == 4 { !matches!(items[2].kind, Kind::Simple(20)) } else { true };
+        match route {
+            2 => {
+                let r = match &aux_slice {
+                    Some(a) => lib("FixedTransaction::new_with_auxiliary", || FixedTransaction::new_with_auxiliary(&body_slice, &wits_slice, a, is_valid))?,
+                    None => lib("FixedTransaction::new", || FixedTransaction::new(&body_slice, &wits_slice, is_valid))?,
+                };
+                match r {
+                    Ok(f) => {
+                        ftx = f;
+                        ctx.label(if aux_slice.is_some() { "route:new_with_auxiliary" } else { "route:new" });
+                    }
+                    Err(_) => ctx.label("route:parts-constructor-refused(from_bytes kept)"),
+                }
+            }
+            3 => {
+                let hx = if t.bool() { hex::encode(&input).to_uppercase() } else { hex::encode(&input) };
+                match lib("FixedTransaction::from_hex", || FixedTransaction::from_hex(&hx))? {
+                    Ok(f) => {
+                        ftx = f;
+                        ctx.label("route:from_hex");
+                    }
+                    Err(e) => fail!("fixed_tx/from_hex-refuses-what-from_bytes-accepts", "{:?}: {}", e, hx),
+                }
+            }
+            _ => ctx.label("route:from_bytes"),
+        }
+    }
     // expected state of keys 0 and 2
     let in_wits = doc.as_array().unwrap()[1].as_map().unwrap();
     let find = |k: u64| in_wits.iter().find(|(key, _)| key.as_u64() == Some(k)).map(|(_, v)| v);
